@@ -1,6 +1,9 @@
 package scen
 
 import (
+	"fmt"
+	"math/big"
+	"strings"
 	"time"
 
 	"verif/mc"
@@ -44,12 +47,171 @@ func govOnce(name, kind string, params any) Action {
 	return Action{Name: name, Gov: &GovSpec{Kind: kind, Params: params}, Count: "gov", Enabled: func(_ *model.State, aux map[string]int) bool { return aux["gov"] < 1 }}
 }
 
-func c10Scenario() *Scenario {
-	s := &Scenario{
-		Name:      "streams",
-		Genesis:   BaseGenesis(mc.AcctSpec{Name: "A", Coins: Rich()}, mc.AcctSpec{Name: "B", Coins: Rich()}, mc.AcctSpec{Name: "R1", Coins: Coins(1000, 0)}, mc.AcctSpec{Name: "R2", Coins: Coins(1000, 0)}),
-		KeyTimeNs: true,
+func isStreamKind(k string) bool { return strings.HasPrefix(k, "str.") && k != model.StrParams }
+
+// streamConservation is the C10 per-transaction oracle. It only uses OBSERVED balance movements
+// (and the fee rate in force), never the timing model: whatever amount a stream operation
+// releases, coins are conserved, only the parties of the stream move, the fee collector gets
+// floor(released x rate), and per stream deposited = paid + fees + refunded + remaining.
+func streamConservation(e *Exec, obs *TxObs, _, _ map[string][]mc.KV) []Disc {
+	var out []Disc
+	tx := obs.Tx
+	msgs := model.Flatten(tx.Msgs)
+	denoms := map[string]bool{}
+	for _, m := range []map[string]map[string]*big.Int{e.PreBal, e.PostBal} {
+		for _, bm := range m {
+			for d := range bm {
+				denoms[d] = true
+			}
+		}
 	}
+	var sm *model.Msg
+	for i := range msgs {
+		if isStreamKind(msgs[i].Kind) {
+			sm = &msgs[i]
+		}
+	}
+	if obs.Code != 0 || sm == nil {
+		for d := range denoms {
+			if e.Delta(model.ModStr, d).Sign() != 0 {
+				out = append(out, disc("str.conserve", "stream escrow moved by %s %s in a transaction that is not a successful stream operation: %s", e.Delta(model.ModStr, d), d, txJSON(tx)))
+			}
+		}
+		return out
+	}
+	if len(msgs) != 1 {
+		return out // the per-stream attribution below is defined for single-operation transactions
+	}
+	sender, recv := sm.From, sm.To
+	if sm.Kind == model.StrClaim {
+		sender, recv = sm.To, sm.From
+	}
+	key := recv + "|" + sender
+	allowed := map[string]bool{sender: true, recv: true, model.ModStr: true, model.ModFee: true}
+	den := ""
+	for d := range denoms {
+		sum := new(big.Int)
+		for _, n := range e.Tracked {
+			dl := e.Delta(n, d)
+			sum.Add(sum, dl)
+			if dl.Sign() != 0 {
+				if !allowed[n] {
+					out = append(out, disc("str.conserve", "%s moved the balance of %s by %s %s, which is not a party of the stream", sm.Kind, n, dl, d))
+				}
+				den = d
+			}
+		}
+		if sum.Sign() != 0 {
+			out = append(out, disc("str.conserve", "%s created or destroyed %s %s", sm.Kind, sum, d))
+		}
+	}
+	if den == "" {
+		den = sm.Den
+	}
+	if den == "" {
+		if st, ok := e.PreM.Str[key]; ok {
+			den = st.Denom
+		}
+	}
+	dRecv, dFee, dSender, dEsc := e.Delta(recv, den), e.Delta(model.ModFee, den), e.Delta(sender, den), e.Delta(model.ModStr, den)
+	released := new(big.Int).Add(dRecv, dFee)
+	if released.Sign() < 0 || dFee.Sign() < 0 {
+		out = append(out, disc("str.conserve", "%s took coins from the receiver or the fee collector (receiver %s, collector %s)", sm.Kind, dRecv, dFee))
+	}
+	// fee = floor(released x rate)
+	f := new(big.Rat).Mul(new(big.Rat).SetInt(released), e.PreM.FeeRat())
+	wantFee := new(big.Int).Div(f.Num(), f.Denom())
+	if released.Sign() >= 0 && dFee.Cmp(wantFee) != 0 {
+		out = append(out, disc("str.feesplit", "%s released %s %s: fee collector got %s, floor(released x %s) = %s", sm.Kind, released, den, dFee, e.PreM.FeeNum, wantFee))
+	}
+	// observed ledger
+	if e.M.ObsLedger == nil {
+		e.M.ObsLedger = map[string]*model.Ledger{}
+	}
+	lg := e.M.ObsLedger[key]
+	if lg == nil || sm.Kind == model.StrCreate {
+		lg = &model.Ledger{Deposited: new(big.Int), Paid: new(big.Int), Fees: new(big.Int), Refunded: new(big.Int)}
+		e.M.ObsLedger[key] = lg
+	}
+	lg.Paid.Add(lg.Paid, dRecv)
+	lg.Fees.Add(lg.Fees, dFee)
+	switch sm.Kind {
+	case model.StrCreate, model.StrTopUp:
+		lg.Deposited.Add(lg.Deposited, sm.AmtI())
+		if new(big.Int).Neg(dSender).Cmp(sm.AmtI()) != 0 {
+			out = append(out, disc("str.conserve", "%s of %s debited the sender by %s", sm.Kind, sm.AmtI(), new(big.Int).Neg(dSender)))
+		}
+	case model.StrCancel:
+		lg.Refunded.Add(lg.Refunded, dSender)
+	default:
+		if dSender.Sign() != 0 {
+			out = append(out, disc("str.conserve", "%s moved the sender's balance by %s", sm.Kind, dSender))
+		}
+	}
+	remaining := new(big.Int)
+	if st, ok := e.W.App.StreamKeeper.GetStream(e.W.Ctx(), AddrOf(e.W, recv), AddrOf(e.W, sender)); ok {
+		remaining = st.Deposit.Amount.BigInt()
+	}
+	sum := new(big.Int).Add(lg.Paid, lg.Fees)
+	sum.Add(sum, lg.Refunded).Add(sum, remaining)
+	if sum.Cmp(lg.Deposited) != 0 {
+		out = append(out, disc("str.ledger", "stream %s after %s: deposited %s != paid %s + fees %s + refunded %s + remaining %s", key, sm.Kind, lg.Deposited, lg.Paid, lg.Fees, lg.Refunded, remaining))
+	}
+	_ = dEsc
+	return out
+}
+
+// streamTiming is the C11 per-transaction oracle: the total released by a stream operation and
+// the refund of a cancel equal what the reference schedule (A.4) prescribes.
+func streamTiming(e *Exec, obs *TxObs, _, _ map[string][]mc.KV) []Disc {
+	var out []Disc
+	msgs := model.Flatten(obs.Tx.Msgs)
+	if obs.Code != 0 || len(msgs) != 1 || !isStreamKind(msgs[0].Kind) || obs.Pred != "ok" {
+		return nil
+	}
+	sm := msgs[0]
+	sender, recv := sm.From, sm.To
+	if sm.Kind == model.StrClaim {
+		sender, recv = sm.To, sm.From
+	}
+	den := sm.Den
+	if st, ok := e.PreM.Str[recv+"|"+sender]; ok {
+		den = st.Denom
+	}
+	released := new(big.Int).Add(e.Delta(recv, den), e.Delta(model.ModFee, den))
+	want := e.M.LastRelease
+	if want == nil {
+		want = new(big.Int)
+	}
+	if released.Cmp(want) != 0 {
+		out = append(out, Disc{Kind: "str.release_amount", Detail: fmt.Sprintf("%s on stream %s|%s at t=%s ns released %s %s; the agreed schedule releases %s (before: %s)", sm.Kind, recv, sender, e.M.Now, released, den, want, streamStr(e.PreM.Str[recv+"|"+sender]))})
+	}
+	if sm.Kind == model.StrCancel {
+		ref := e.Delta(sender, den)
+		wr := e.M.LastRefund
+		if wr == nil {
+			wr = new(big.Int)
+		}
+		if ref.Cmp(wr) != 0 {
+			out = append(out, disc("str.refund_amount", "cancel of stream %s|%s refunded %s %s; the unreleased remainder is %s", recv, sender, ref, den, wr))
+		}
+	}
+	return out
+}
+
+func streamStr(s *model.Stream) string {
+	if s == nil {
+		return "none"
+	}
+	return fmt.Sprintf("{D %s r %d L %s Z %s}", s.D, s.R, s.L, s.Z)
+}
+
+func streamGenesis() mc.GenesisSpec {
+	return BaseGenesis(mc.AcctSpec{Name: "A", Coins: Rich()}, mc.AcctSpec{Name: "B", Coins: Rich()}, mc.AcctSpec{Name: "R1", Coins: Coins(1000, 0)}, mc.AcctSpec{Name: "R2", Coins: Coins(1000, 0)})
+}
+
+func c10Scenario() *Scenario {
+	s := &Scenario{Name: "streams", Genesis: streamGenesis(), KeyTimeNs: true, AfterTx: streamConservation}
 	s.Actions = streamActions(time.Second)
 	s.Actions = append(s.Actions,
 		Action{Name: "send(A->escrow,5nund)", Dt: time.Second, Txs: tx1(model.Msg{Kind: model.BankSend, From: "A", To: model.ModStr, Den: mc.Nund, Amt: "5"})},
@@ -69,9 +231,10 @@ func init() {
 				Quick:    {Depth: 4, Budget: 150 * time.Second, ReplayEvery: 4},
 				Thorough: {Depth: 7, Budget: 25 * time.Minute, ReplayEvery: 8, MaxStates: 400000},
 			}}},
-			// escrow backing, conservation (balances of every party incl. fee collector around each tx), registered invariant
-			Owns:        ownsAny("str.escrow", "str.deposit", "bal:", "invariant:stream", "tx.accept_unexpected:bank.send:blocked_recipient", "supply"),
-			Assumptions: []string{"Cosmos-SDK bank/auth/gov semantics are the trusted substrate", "bounds: alphabet and depth as listed in coverage.scenarios"},
+			// escrow backing at block boundaries, conservation / fee split / ledger from observed movements, registered invariant,
+			// and no transfer into the escrow account
+			Owns:        ownsAny("str.escrow", "str.conserve", "str.feesplit", "str.ledger", "invariant:stream", "tx.accept_unexpected:bank.send:blocked_recipient"),
+			Assumptions: []string{"Cosmos-SDK bank/auth/gov semantics are the trusted substrate", "bounds: alphabet and depth as listed in coverage.scenarios", "transactions carry zero fees, so the fee collector's delta inside a transaction is the validator fee"},
 		}
 	}
 }
